@@ -282,3 +282,13 @@ EXTRA5 = {
 for _pid, _txt in EXTRA5.items():
     if _pid in CHECKS and _txt not in CHECKS[_pid]['text']:
         CHECKS[_pid]['text'] += _txt
+
+# additions after the sixth (short) round
+EXTRA6 = {
+    'C02': ' One operand is a composition that still carries two unmerged scalar factors.',
+    'C18': ' The shared filtering jit also sees 1.0 * op, 1 * op and op / 1 on integer leaves.',
+    'C20': ' dot of all-integer leaves must be the exact integer sum with an integer dtype.',
+}
+for _pid, _txt in EXTRA6.items():
+    if _pid in CHECKS and _txt not in CHECKS[_pid]['text']:
+        CHECKS[_pid]['text'] += _txt
